@@ -1,5 +1,107 @@
+"""C02 - coincidence probability pc is the exact fraction of coinciding pairs."""
 from .. import AnalysisBroken
+from ..rules import where_of
+from ..terms import head, is_const, show, strip, walk, get_arg
+from ._pcspec import M, check_against_spec, is_row_serializer, is_vec, sep_ok, vec_with_param0
+
+CLAIMED = True
+LEVEL = "other"
+TECHNIQUE = "rational-function normal form over multiplicity power sums; value provenance of numpy.unique / intersect1d slots; row-serialiser idiom check; decision-table comparison with a specification"
+TEXT = ("Decides, for every input, that pc_n(n) == (P2-P1)/(P1^2-P1); that one-sample pc is that expression on the multiplicity slot of "
+        "numpy.unique of its argument with N = len(argument); that two-sample pc is sum over common values of c1*c2 / (len(a) len(b)) with each "
+        "multiplicity vector paired with the index vector intersect1d returned for its own operand; that tables are serialised row-wise over all "
+        "columns with a non-empty constant separator after fillna; that pc_joint applies one serialiser and one token to both operands and returns "
+        "pc of the results unmodified; that legacy tuples become a (CDR3A, CDR3B) table. Reordering / relabelling invariance and the [0,1] range "
+        "follow because the value is a function of the multiplicity multiset only. Grade A (formula and glue); library facts are modelled.")
+NOTE = ("Trusted: numpy.unique / intersect1d / DataFrame.apply(axis=1) / fillna models, exact arithmetic. Not decided: str(1) == '1' identification "
+        "of mixed-type cells; a separator occurring inside cells (excluded by the statement's quantifier).")
+
+SER_SITES = [("pc", 1), ("pc_joint", 1), ("stdpc_joint", 1)]
 
 
 def run(r):
-    raise AnalysisBroken("rule set for C02 not implemented yet (fail-closed stub)")
+    rep = r.rep
+    rep.explanation = ("pc_n, both paths of pc, pc_joint and the tuple converter were reduced to normal forms from the current source and compared with "
+                       "the specification of the statement; every row serialiser was checked against the accepted idioms.")
+    rep.trust("numpy.unique(a, return_counts=True) -> (sorted distinct values, multiplicities; sum = a.shape[0])",
+              "numpy.intersect1d(u, v, return_indices=True) -> (common, positions in u, positions in v) for duplicate-free u, v; assume_unique=True is redundant on numpy.unique outputs",
+              "DataFrame.apply(f, axis=1) applies f to every row in order; DataFrame.fillna(c) replaces missing cells only",
+              "exact arithmetic (no floating point)")
+    check_against_spec(r, "C02-RF", "pc_n", "pc_n(n) == sum n_i(n_i - 1) / (N (N - 1))", vec=vec_with_param0)
+    check_against_spec(r, "C02-RF", "pc", "pc one-sample == coinciding ordered pairs / N(N-1); two-sample == coinciding cross pairs / (N1 N2); tables serialised row-wise", vec=is_vec)
+    check_against_spec(r, "C02-JOINT", "pc_joint", "pc_joint == pc of the row serialisation of the selected columns, same token for both tables", vec=is_vec)
+    check_against_spec(r, "C02-TUP", "convert_tuple_to_dataframe_if_necessary", "a 2-tuple becomes a (CDR3A, CDR3B) table built row-wise in tuple order, anything else is returned unchanged",
+                       modname="pyrepseq.util", qual="pyrepseq.util.convert_tuple_to_dataframe_if_necessary")
+    rep.floor("C02-RF", 2)
+    rep.floor("C02-JOINT", 1)
+    rep.floor("C02-TUP", 1)
+
+    # ---- C02-SER: every row serialiser is SEP.join(str(v) for v in row) over the whole row with a non-empty separator, axis=1
+    for fname, floor in SER_SITES:
+        q = M + fname
+        s = r.A.summary(q)
+        rep.analysed(q)
+        n = 0
+        seen = set()
+        for e in s.events_of("call"):
+            t = strip(e["term"])
+            f = strip(t[1])
+            if not (head(f) == "attr" and f[2] == "apply"):
+                continue
+            key = (e.line, getattr(e.node, "col_offset", 0))
+            if key in seen:
+                continue
+            seen.add(key)
+            n += 1
+            w = where_of(r.P, s.func, e.node)
+            lam = t[2][0] if t[2] else None
+            sep = is_row_serializer(lam) if lam is not None else None
+            rep.ob("C02-SER", q, sep is not None, "row serialiser joins str() of every cell of the row", w,
+                   expected="lambda row: SEP.join(str(v) for v in row) (or map(str,row) / row.astype(str))", found=show(lam, 160), key=f"serializer form #{n}")
+            if sep is not None:
+                rep.ob("C02-SER", q, sep_ok(sep, s), "separator is a non-empty string (constant or defaulted parameter)", w,
+                       expected="non-empty separator", found=show(sep, 60), key=f"separator #{n}")
+            ax = dict(t[3]).get("axis")
+            rep.ob("C02-SER", q, ax is not None and is_const(ax, 1), "serialiser is applied per row (axis=1)", w, expected="axis=1", found=show(ax) if ax else "axis omitted (column-wise)", key=f"axis #{n}")
+        if n < floor:
+            raise AnalysisBroken(f"{q}: {n} row-serialiser site(s) found, floor is {floor}")
+    rep.floor("C02-SER", 9)
+
+
+from ..selftest import V  # noqa: E402
+
+S = "pyrepseq/stats.py"
+U = "pyrepseq/util.py"
+VARIANTS = [
+    V("empty-separator", S, 'lambda row: ".".join(str(val) for val in row)', 'lambda row: "".join(str(val) for val in row)', rule="C02"),
+    V("swapped-index-vectors", S, "np.sum(c[ind1_int] * c2[ind2_int])", "np.sum(c[ind2_int] * c2[ind1_int])", rule="C02-RF"),
+    V("pc_n-N-is-len", S, "    N = np.sum(n)\n    return np.sum(n * (n - 1)) / (N * (N - 1))", "    N = len(n)\n    return np.sum(n * (n - 1)) / (N * (N - 1))", rule="C02-RF"),
+    V("pc_joint-other-token-for-df2", S, "df_2[on].apply(lambda x: gap_token.join(x.astype(str)), axis=1))", "df_2[on].apply(lambda x: '-'.join(x.astype(str)), axis=1))", rule="C02-JOINT"),
+    V("drop-axis", S, 'lambda row: ".".join(str(val) for val in row),\n            axis=1\n        )', 'lambda row: ".".join(str(val) for val in row)\n        )', rule="C02"),
+    V("serialiser-skips-first-column", S, '".".join(str(val) for val in row)', '".".join(str(val) for val in row[1:])', rule="C02"),
+    V("pc-onesample-N-of-unique", S, "        N = array.shape[0]\n        _, counts = np.unique(array, return_counts=True)", "        _, counts = np.unique(array, return_counts=True)\n        N = counts.shape[0]", rule="C02-RF"),
+    V("pc-second-sample-not-converted", S, "    array2 = convert_to_array(array2)\n", "    array2 = np.asarray(array2)\n", rule="C02-RF"),
+    V("pc_joint-self-cross", S, "df_2[on].apply(lambda x: gap_token.join(x.astype(str)), axis=1))", "df[on].apply(lambda x: gap_token.join(x.astype(str)), axis=1))", rule="C02-JOINT"),
+    V("tuple-columns-swapped", U, 'columns=("CDR3A", "CDR3B")', 'columns=("CDR3B", "CDR3A")', rule="C02-TUP"),
+    V("tuple-not-converted-for-array2", S, "    array2 = convert_tuple_to_dataframe_if_necessary(array2)\n", "", rule="C02-RF"),
+    V("gap-token-default-empty", S, "def pc_joint(df, on, df_2=None, gap_token='_'):", "def pc_joint(df, on, df_2=None, gap_token=''):", rule="C02"),
+    V("silent-N-len", S, "        N = array.shape[0]\n", "        N = len(array)\n", expect="silent"),
+    V("silent-counts-squared", S, "return np.sum(counts * (counts - 1)) / (N * (N - 1))", "return (np.sum(counts**2) - np.sum(counts)) / (N**2 - N)", expect="silent"),
+    V("silent-other-separator", S, 'lambda row: ".".join(str(val) for val in row)', 'lambda row: "\\t".join(str(val) for val in row)', expect="silent"),
+    V("silent-serialiser-helper", S, '''        unique_strings = df.apply(
+            lambda row: ".".join(str(val) for val in row),
+            axis=1
+        )''', '''        serialise = lambda row: ".".join(map(str, row))
+        unique_strings = df.apply(serialise, axis=1)''', expect="silent"),
+    V("silent-positive-isinstance", S, '''        if not isinstance(array, DataFrame):
+            return np.asarray(array)
+        
+        df = array.fillna("")
+        unique_strings = df.apply(
+            lambda row: ".".join(str(val) for val in row),
+            axis=1
+        )
+        return unique_strings.to_numpy()''', '''        if isinstance(array, DataFrame):
+            return array.fillna("").apply(lambda row: ".".join(str(val) for val in row), axis=1).to_numpy()
+        return np.asarray(array)''', expect="silent"),
+]
